@@ -51,8 +51,9 @@ def main():
     P3 = MOD + '.'
     c3.load([P3 + 'VerifC16Connectedness', P3 + 'VerifC16ConnCoop'])
     cfg3 = {'unwind': 2, 'unwind_all': 2, 'timeout_ms': 120000, 'chan_pool': 0, 'chan_pool_by_name': {'waiter': 1}}
-    if t != 'quick':
-        # in the quick tier the connectedness manager is decided by the coop jobs below (seconds, full memory model)
+    if False:
+        # the one-formula BMC jobs of the connectedness manager are not registered any more: the coop jobs below decide it
+        # (seconds, full memory model); the BMC harness is kept in harness/C16/zz_verif_c16_conn.go
         res += c3.run_jobs([Job(P3 + 'VerifC16Connectedness', (sc,), cfg=cfg3, max_paths=100000, installers=[bmc.install]) for sc in (0, 1)])
     # the same manager with its real maps under the symbolic scheduler inside the interpreter (coop.py)
     c4 = c3
